@@ -121,8 +121,34 @@ Section Main.
     j_nobook : forall b, In b (bookings st) -> ~ In (b_task b) work;
     j_good : forall t f e, leaf_dates st t = Some (f, e) -> Good st t f e;
     j_own : forall t f e, leaf_dates st t = Some (f, e) ->
-            forall x, In x (bookings st) -> b_task x = t -> f <= b_slot x < e
+            forall x, In x (bookings st) -> b_task x = t -> f <= b_slot x < e;
+    j_blocks : forall t f e, leaf_dates st t = Some (f, e) -> t_need (task_of p t) <> 0 ->
+               exists ss, length ss = t_need (task_of p t) /\
+                          filter (fun x => Nat.eqb (b_task x) t) (bookings st) = concat (map (block p t) ss)
   }.
+
+  Lemma filter_blocks_same t ss :
+    filter (fun x => Nat.eqb (b_task x) t) (concat (map (block p t) ss)) = concat (map (block p t) ss).
+  Proof.
+    induction ss as [|s tl IH]; [reflexivity|]. cbn [map concat]. rewrite filter_app, IH. f_equal.
+    unfold block. induction (t_team (task_of p t)) as [|r rs IHr]; [reflexivity|].
+    cbn [map rev]. rewrite filter_app, IHr. cbn. now rewrite Nat.eqb_refl.
+  Qed.
+
+  Lemma filter_blocks_other t u ss : u <> t ->
+    filter (fun x => Nat.eqb (b_task x) u) (concat (map (block p t) ss)) = [].
+  Proof.
+    intros Hne. induction ss as [|s tl IH]; [reflexivity|]. cbn [map concat]. rewrite filter_app, IH, app_nil_r.
+    unfold block. induction (t_team (task_of p t)) as [|r rs IHr]; [reflexivity|].
+    cbn [map rev]. rewrite filter_app, IHr. cbn. destruct (Nat.eqb_spec t u); [congruence|reflexivity].
+  Qed.
+
+  Lemma filter_fresh t l : (forall x, In x l -> b_task x <> t) -> filter (fun x => Nat.eqb (b_task x) t) l = [].
+  Proof.
+    induction l as [|x tl IH]; intros H; [reflexivity|]. cbn.
+    destruct (Nat.eqb_spec (b_task x) t) as [E|E]; [exfalso; apply (H x); [now left|exact E]|].
+    apply IH. intros; apply H; now right.
+  Qed.
 
   Lemma extends_ext a b : (forall u, leaf_dates a u <> None -> True) ->
     (exists new, bookings b = new ++ bookings a) -> placed b = placed a -> ext a b.
@@ -181,7 +207,7 @@ Section Main.
 
   Lemma J_sub st work rest : J st work -> NoDup rest -> (forall u, In u rest -> In u work) -> J st rest.
   Proof.
-    intros [J1 J2 J3 J4 J5] Hnd Hsub. constructor; [exact Hnd| | |exact J4|exact J5].
+    intros [J1 J2 J3 J4 J5 J6] Hnd Hsub. constructor; [exact Hnd| | |exact J4|exact J5|exact J6].
     - intros t Ht. apply J2. now apply Hsub.
     - intros b Hb Hin. apply (J3 b Hb). now apply Hsub.
   Qed.
@@ -190,7 +216,7 @@ Section Main.
     J st work -> pick p st work = Some (t, rest) -> J (schedule_task p st t) rest.
   Proof.
     intros HJ Hp. destruct (pick_spec _ _ _ _ Hp) as (Hready & Hin & _ & Hnd).
-    destruct HJ as [J1 J2 J3 J4 J5]. destruct (Hnd J1) as (Nrest & Ntrest & Hsub).
+    destruct HJ as [J1 J2 J3 J4 J5 J6]. destruct (Hnd J1) as (Nrest & Ntrest & Hsub).
     assert (HJr : J st rest) by (apply (J_sub st work); [constructor; assumption|assumption|assumption]).
     assert (Hunpl : leaf_dates st t = None) by now apply J2.
     assert (Hfresh : forall x, In x (bookings st) -> b_task x <> t).
@@ -201,7 +227,7 @@ Section Main.
     - (* milestone at its bound *)
       set (b := bound p st t) in *.
       assert (He : ext st (place st t (b, b))) by now apply place_ext.
-      constructor; [exact Nrest| | | |].
+      constructor; [exact Nrest| | | | |].
       + intros u Hu. rewrite leaf_dates_place_other; [apply J2; now apply Hsub|]. intros ->; contradiction.
       + intros x Hx. cbn in Hx. intros Hr. apply (J3 x Hx). now apply Hsub.
       + intros u f e Hu. destruct (Nat.eq_dec u t) as [->|Hne].
@@ -214,13 +240,19 @@ Section Main.
       + intros u f e Hu x Hx Hxt. cbn [place bookings] in Hx. destruct (Nat.eq_dec u t) as [->|Hne].
         * exfalso. now apply (Hfresh x Hx).
         * rewrite leaf_dates_place_other in Hu by exact Hne. eapply J5; eassumption.
+      + intros u f e Hu Hnu. cbn [place bookings]. destruct (Nat.eq_dec u t) as [->|Hne]; [congruence|].
+        rewrite leaf_dates_place_other in Hu by exact Hne. eapply J6; eassumption.
     - destruct (t_team (task_of p t)) as [|r0 team0] eqn:Et; [exact HJr|].
       assert (Hteam : t_team (task_of p t) <> []) by (rewrite Et; discriminate).
       set (b := bound p st t) in *.
       destruct (walk p t (S (p_upper p) - b) b (S n) None st) as [st1 d] eqn:Ew.
       destruct (walk_spec p t _ _ _ _ _ _ _ Hteam Ew) as (new & N1 & N2 & N3 & N4 & N5).
+      destruct (walk_blocks p t _ _ _ _ _ _ _ Ew) as (ss & S1 & _ & S3).
       assert (He1 : ext st st1).
       { split; [exists new; exact N1|]. intros u d0. unfold leaf_dates. now rewrite N2. }
+      assert (Hblk_other : forall u, u <> t ->
+                filter (fun x => Nat.eqb (b_task x) u) (bookings st1) = filter (fun x => Nat.eqb (b_task x) u) (bookings st)).
+      { intros u Hne. rewrite S1, filter_app, filter_blocks_other by exact Hne. reflexivity. }
       assert (Hnb1 : forall x, In x (bookings st1) -> ~ In (b_task x) rest).
       { intros x Hx. rewrite N1 in Hx. apply in_app_or in Hx as [Hx|Hx].
         - destruct (N3 x Hx) as (-> & _). exact Ntrest.
@@ -229,7 +261,7 @@ Section Main.
       + destruct (N4 f e eq_refl) as (A1 & A2 & A3 & A4 & A5 & A6 & A7 & A8).
         assert (Hunpl1 : leaf_dates st1 t = None) by (unfold leaf_dates in *; now rewrite N2).
         assert (He2 : ext st1 (place st1 t (f, e))) by now apply place_ext.
-        constructor; [exact Nrest| | | |].
+        constructor; [exact Nrest| | | | |].
         * intros u Hu. rewrite leaf_dates_place_other; [|intros ->; contradiction].
           unfold leaf_dates. rewrite N2. apply J2. now apply Hsub.
         * exact Hnb1.
@@ -255,13 +287,22 @@ Section Main.
              assert (Hu' : leaf_dates st u = Some (f', e')) by (unfold leaf_dates in *; rewrite N2 in Hu; exact Hu).
              apply in_app_or in Hx as [Hx|Hx]; [|eapply J5; eassumption].
              exfalso. destruct (N3 x Hx) as (Q & _). rewrite Hxt in Q. subst u. congruence.
-      + constructor; [exact Nrest| |exact Hnb1| |].
+        * intros u f' e' Hu Hnu. cbn [place bookings]. destruct (Nat.eq_dec u t) as [->|Hne].
+          -- exists ss. split; [rewrite (S3 ltac:(discriminate)), En; cbn; lia|].
+             rewrite S1, filter_app, filter_blocks_same, (filter_fresh t (bookings st) Hfresh). apply app_nil_r.
+          -- rewrite leaf_dates_place_other in Hu by exact Hne. rewrite (Hblk_other u Hne).
+             apply (J6 u f' e'); [unfold leaf_dates in *; rewrite N2 in Hu; exact Hu|exact Hnu].
+      + constructor; [exact Nrest| |exact Hnb1| | |].
         * intros u Hu. unfold leaf_dates. rewrite N2. apply J2. now apply Hsub.
         * intros u f e Hu. eapply Good_stable; [exact He1|]. apply J4. unfold leaf_dates in *. rewrite N2 in Hu. exact Hu.
         * intros u f e Hu x Hx Hxt. rewrite N1 in Hx.
           assert (Hu' : leaf_dates st u = Some (f, e)) by (unfold leaf_dates in *; rewrite N2 in Hu; exact Hu).
           apply in_app_or in Hx as [Hx|Hx]; [|eapply J5; eassumption].
           exfalso. destruct (N3 x Hx) as (Q & _). rewrite Hxt in Q. subst u. congruence.
+        * intros u f e Hu Hnu.
+          assert (Hu' : leaf_dates st u = Some (f, e)) by (unfold leaf_dates in *; rewrite N2 in Hu; exact Hu).
+          assert (Hne : u <> t) by (intros ->; congruence).
+          rewrite (Hblk_other u Hne). eapply J6; eassumption.
   Qed.
 
   Lemma loop_J : forall fuel work st, J st work -> exists rest, J (loop p fuel work st) rest.
@@ -277,7 +318,7 @@ Section Main.
     destruct (pick p st work) as [[t rest]|] eqn:E; [|apply ext_refl].
     eapply ext_trans; [|apply (IH rest); eapply step_J; eassumption].
     (* one step is an extension *)
-    destruct (pick_spec _ _ _ _ E) as (_ & Hin & _ & _). destruct HJ as [J1 J2 J3 J4 J5].
+    destruct (pick_spec _ _ _ _ E) as (_ & Hin & _ & _). destruct HJ as [J1 J2 J3 J4 J5 J6].
     assert (Hunpl : leaf_dates st t = None) by now apply J2.
     unfold schedule_task. destruct (p_upper p <? bound p st t); [apply ext_refl|].
     destruct (t_need (task_of p t)) as [|n]; [now apply place_ext|].
